@@ -536,7 +536,7 @@ func (r *run) afterSettle(st []tStatus) {
 		th.status = st[t]
 		if st[t] == stBlocked && th.ph == phInLock && !th.probed && !mapSectionHeld {
 			th.probed = true
-			if r.c.Prim != "context" && r.c.Prim != "outer" {
+			if r.c.Prim != "outer" {
 				r.s.log("probe t=%d p=blocked", t)
 			}
 			r.hist["blocked.confirmed"]++
